@@ -57,7 +57,7 @@ fn oracle(c: &Case, st: &mut Stats) -> Result<(), String> {
   if other_input == c.input.0 {
     other_input.push(0);
   }
-  let mut servers: Vec<Server> = (0..c.servers.max(1)).map(|_| Server::new(registration_list(&c.mds)).map_err(|e| e.to_string())).collect::<Result<_, _>>()?;
+  let mut servers: Vec<Server> = (0..c.servers.max(1)).map(|_| new_server(&c.mds).map_err(|e| e.to_string())).collect::<Result<_, _>>()?;
   // a first output before any puncture, to be compared with everything that follows
   let before: Vec<[u8; 32]> = servers.iter().map(|s| crate::starx::ppoprf_exchange(s, md, &c.input, false)).collect::<Result<_, _>>()?;
   let mut npunct = 0usize;
@@ -232,7 +232,7 @@ fn oracle(c: &Case, st: &mut Stats) -> Result<(), String> {
     let h = point_from(hb);
     let mut seen: Vec<[u8; 32]> = Vec::new();
     for round in 0..3 {
-      let s = Server::new(registration_list(&c.mds)).map_err(|e| e.to_string())?;
+      let s = new_server(&c.mds).map_err(|e| e.to_string())?;
       let direct = *s.eval(&h, md, false).map_err(|e| e.to_string())?.output.as_bytes();
       st.evals(1);
       if seen.contains(&direct) {
